@@ -24,7 +24,7 @@ func (e *Engine) doCall(st *State, g *G, fr *Frame, in ssa.CallInstruction) ([]*
 			return e.finishCall(st, g, fr, in, Opaque{"invoke on opaque"})
 		}
 		if recv.t == nil {
-			e.vc(st, "method call on nil interface ("+cc.Method.Name()+") in "+fr.fn.String(), B(true))
+			e.panicVC(st, "method call on nil interface ("+cc.Method.Name()+") in "+fr.fn.String(), B(true))
 			return nil, false
 		}
 		if _, isErr := recv.v.(*ErrObj); isErr {
@@ -198,7 +198,7 @@ func (e *Engine) invokeValue(st *State, g *G, fr *Frame, callee Value, args []Va
 		return e.finishCall(st, g, fr, in, Opaque{"call of opaque"})
 	case Ptr:
 		if f.obj == 0 {
-			e.vc(st, "call of nil function in "+fr.fn.String(), B(true))
+			e.panicVC(st, "call of nil function in "+fr.fn.String(), B(true))
 			return nil, false
 		}
 	}
@@ -326,35 +326,121 @@ func (e *Engine) isPure(fn *ssa.Function) bool {
 
 // ---------------- harness intrinsics
 
+func (e *Engine) isPrelude(f *ssa.Function) bool {
+	if f.Pkg == nil {
+		return false
+	}
+	pos := e.prog.Fset.Position(f.Pos())
+	return strings.HasSuffix(pos.Filename, "zz_verif_prelude.go")
+}
+
+func (e *Engine) freshND(st *State, w int) *Term {
+	name := fmt.Sprintf("nd%d_%d", len(st.vars), w)
+	v := e.ndVars[name]
+	if v == nil {
+		v = V(name, w)
+		e.ndVars[name] = v
+	}
+	st.vars = append(st.vars, v)
+	return v
+}
+
 func (e *Engine) intrinsic(st *State, g *G, fr *Frame, in ssa.Instruction, f *ssa.Function, args []Value) (succ []*State, handled bool, cont bool) {
+	if !e.isPrelude(f) {
+		return nil, false, false
+	}
 	name := f.Name()
 	fin := func(v Value) ([]*State, bool, bool) {
 		s, c := e.finishCall(st, g, fr, in, v)
 		return s, true, c
 	}
-	if strings.HasPrefix(name, "nd") && f.Pkg != nil && strings.HasPrefix(f.Pkg.Pkg.Path(), "github.com/bio-routing/") {
-		w, ok := map[string]int{"ndU8": 8, "ndU16": 16, "ndU32": 32, "ndU64": 64, "ndBool": 0}[name]
-		if ok {
-			e.ndCount++
-			v := V(fmt.Sprintf("nd%d", e.ndCount), w)
-			st.vars = append(st.vars, v)
-			return fin(v)
+	if w, ok := map[string]int{"ndU8": 8, "ndU16": 16, "ndU32": 32, "ndU64": 64, "ndBool": 0}[name]; ok {
+		if w == 0 {
+			// booleans travel as one byte in the replay vector
+			b := e.freshND(st, 8)
+			return fin(Not(Cmp("=", ExtractRange(b, 0, 0), C(0, 1))))
 		}
+		return fin(e.freshND(st, w))
 	}
 	switch name {
+	case "ndBytes":
+		n, ok := args[0].(*Term)
+		if !ok || !n.IsConst() {
+			return e.abort(st, "ndBytes with symbolic length"), true, false
+		}
+		elems := make(StructV, int(n.Val))
+		for i := range elems {
+			elems[i] = e.freshND(st, 8)
+		}
+		p := st.alloc(elems)
+		return fin(SliceV{arr: p.obj, n: len(elems), cap: len(elems)})
+	case "vChoice":
+		n, ok := args[0].(*Term)
+		if !ok || !n.IsConst() || n.Val == 0 || n.Val > 255 {
+			return e.abort(st, "vChoice with bad bound"), true, false
+		}
+		b := e.freshND(st, 8)
+		st.pc = append(st.pc, Cmp("bvult", b, C(n.Val, 8)))
+		return fin(Zext(b, 64))
+	case "vParam":
+		k, _ := args[0].(string)
+		v, ok := e.cfg.Params[k]
+		if !ok {
+			return e.abort(st, "vParam: no parameter "+k), true, false
+		}
+		return fin(C(uint64(int64(v)), 64))
 	case "vAssume":
-		c := args[0].(*Term)
+		c, ok := args[0].(*Term)
+		if !ok {
+			return e.abort(st, "vAssume on opaque"), true, false
+		}
 		if !e.feasible(st, c) {
+			e.assumeCut++
 			return nil, true, false
 		}
-		st.pc = append(st.pc, c)
+		if !c.True() {
+			st.pc = append(st.pc, c)
+		}
 		return fin(nil)
 	case "vAssert":
-		c := args[0].(*Term)
-		e.vc(st, "assert "+args[1].(string), Not(c))
+		c, ok := args[0].(*Term)
+		if !ok {
+			return e.abort(st, "vAssert on opaque"), true, false
+		}
+		label, _ := args[1].(string)
+		st.asserts = append(st.asserts, assertRec{label, c})
+		e.asserted[label]++
+		if !e.vc(st, "assert", label, Not(c)) {
+			return nil, true, false
+		}
+		return fin(nil)
+	case "vKnown":
+		id, _ := args[0].(string)
+		c, ok := args[1].(*Term)
+		if !ok {
+			return e.abort(st, "vKnown on opaque"), true, false
+		}
+		nr := make(map[string]*Term, len(st.regions)+1)
+		for k, v := range st.regions {
+			nr[k] = v
+		}
+		if old, ok := nr[id]; ok {
+			c = Or(old, c)
+		}
+		nr[id] = c
+		st.regions = nr
+		return fin(nil)
+	case "vObserve":
+		t, ok := args[0].(*Term)
+		if !ok {
+			return e.abort(st, "vObserve on opaque"), true, false
+		}
+		st.obs = append(st.obs, t)
 		return fin(nil)
 	case "vReach":
-		e.reach[args[0].(string)] = true
+		l, _ := args[0].(string)
+		e.reach[l] = true
+		st.reached = append(st.reached, l)
 		return fin(nil)
 	case "vSettle":
 		// let every other goroutine run until all are blocked/done
@@ -364,10 +450,15 @@ func (e *Engine) intrinsic(st *State, g *G, fr *Frame, in ssa.Instruction, f *ss
 		g.wait = wNone
 		return e.schedule(st), true, false
 	case "vAdvance":
-		d := args[0].(*Term)
+		d, ok := args[0].(*Term)
+		if !ok || !d.IsConst() {
+			return e.abort(st, "vAdvance with symbolic duration"), true, false
+		}
 		st.clock += int64(d.Val)
 		e.fireTimers(st)
 		return fin(nil)
+	case "vNow":
+		return fin(C(uint64(st.clock), 64))
 	case "vShared":
 		st.shared = st.next
 		st.events = nil
@@ -375,8 +466,14 @@ func (e *Engine) intrinsic(st *State, g *G, fr *Frame, in ssa.Instruction, f *ss
 	case "vChanClosed":
 		p := args[0].(Ptr)
 		return fin(B(st.heap[p.obj].v.(*ChanModel).closed))
+	case "vSymbolic":
+		return fin(B(true))
+	case "vTrace":
+		l, _ := args[0].(string)
+		st.trace = append(st.trace, l)
+		return fin(nil)
 	}
-	return nil, false, false
+	return e.abort(st, "unknown prelude intrinsic "+name), true, false
 }
 
 // ---------------- builtins
@@ -385,7 +482,7 @@ func (e *Engine) builtin(st *State, fr *Frame, f *ssa.Builtin, args []Value) (Va
 	switch f.Name() {
 	case "ssa:wrapnilchk":
 		if p, ok := args[0].(Ptr); ok && p.obj == 0 {
-			e.vc(st, "nil receiver in wrapper method", B(true))
+			e.panicVC(st, "nil receiver in wrapper method", B(true))
 			return nil, "VC:"
 		}
 		return args[0], ""
@@ -485,12 +582,12 @@ func (e *Engine) builtin(st *State, fr *Frame, f *ssa.Builtin, args []Value) (Va
 	case "close":
 		p := args[0].(Ptr)
 		if p.obj == 0 {
-			e.vc(st, "close of nil channel in "+fr.fn.String(), B(true))
+			e.panicVC(st, "close of nil channel in "+fr.fn.String(), B(true))
 			return nil, "VC:"
 		}
 		cm := st.heap[p.obj].v.(*ChanModel)
 		if cm.closed {
-			e.vc(st, "close of closed channel in "+fr.fn.String(), B(true))
+			e.panicVC(st, "close of closed channel in "+fr.fn.String(), B(true))
 			return nil, "VC:"
 		}
 		n := *cm
@@ -586,12 +683,13 @@ func (e *Engine) runInit(st *State, p *ssa.Package) *State {
 	saved := st.clone()
 	e.initMode++
 	nUns := e.unsupported
-	nViol := len(e.violations)
+	savedViol := e.viol
+	e.viol = map[string]*Violation{}
 	var result *State
 	func() {
 		defer func() {
 			if r := recover(); r != nil {
-				fmt.Println("  init of", p.Pkg.Path(), "skipped:", r)
+				e.initNotes = append(e.initNotes, fmt.Sprint("init of ", p.Pkg.Path(), " skipped: ", r))
 			}
 		}()
 		g := st.gs[0]
@@ -610,11 +708,12 @@ func (e *Engine) runInit(st *State, p *ssa.Package) *State {
 	}()
 	e.initMode--
 	if result == nil {
-		fmt.Println("  init of", p.Pkg.Path(), "did not complete; violations:", e.violations[nViol:])
-		e.violations = e.violations[:nViol]
+		e.initNotes = append(e.initNotes, fmt.Sprintf("init of %s did not complete (%d problems)", p.Pkg.Path(), len(e.viol)))
+		e.viol = savedViol
 		e.unsupported = nUns
 		return saved
 	}
+	e.viol = savedViol
 	return result
 }
 
